@@ -163,7 +163,7 @@ def apply_directive(fs, d, tmpl_name):
         getattr(fs, kw).append((e, t))
     elif kw == "closure":
         pos, kws = parse_fields(rest)
-        n = int(pos[0])
+        n = int(pos[0]) if pos[0].isdigit() else pos[0]
         fs.closures[n] = {"params": pos[1] if len(pos) > 1 else None,
                           "ret": pos[2] if len(pos) > 2 else "-", **kws}
     elif kw == "loop":
@@ -323,6 +323,27 @@ def find_closures(toks, lo, hi):
                                 break
                         jj += 1
                     c["body_end"] = jj - 1                    # index of last token of the body
+                # callee: name of the method/function whose argument list contains this closure
+                callee = None
+                q = k - 1
+                depth = 0
+                while q >= lo:
+                    tq = toks[q]
+                    if tq.kind == "punct" and tq.text in CLOSE:
+                        depth += 1
+                    elif tq.kind == "punct" and tq.text in OPEN:
+                        if depth == 0:
+                            if tq.text == "(" and q > 0 and toks[q - 1].kind == "ident":
+                                callee = toks[q - 1].text
+                            break
+                        depth -= 1
+                    elif tq.kind == "punct" and tq.text in (";",) and depth == 0:
+                        break
+                    elif tq.kind == "punct" and tq.text == "=" and depth == 0 and q > 0 and toks[q - 1].kind == "ident":
+                        callee = "let:" + toks[q - 1].text
+                        break
+                    q -= 1
+                c["callee"] = callee or "?"
                 out.append(c)
                 k = c["body_start"]       # nested closures inside the body are found too
                 continue
@@ -377,6 +398,7 @@ class Emitter:
         self.fn_ranges = []    # (line0, line1, fnkey, tags, src info)
         self.rewrites = []     # logged rule applications
         self.functions = []    # fn descriptors for evidence
+        self.degraded = []     # sidecar annotations that could not be placed (source changed shape)
     def add(self, text):
         for l in text.split("\n"):
             self.lines.append(l)
@@ -431,6 +453,7 @@ def instantiate_fn(fs, item, em):
     fnkey = fs.key
     em._pending = []
     log = []
+    degraded = []
 
     # ---- signature: result binder + contract
     if fs.ret != "-" and sh.ret_start is not None:
@@ -450,10 +473,20 @@ def instantiate_fn(fs, item, em):
         lo, hi = sh.body_open, sh.body_close
         # ---- closures
         cls = find_closures(toks, lo, hi)
-        for n, spec in sorted(fs.closures.items()):
-            if n < 1 or n > len(cls):
-                raise GenError("%s: closure %d not found (function has %d closures)" % (fnkey, n, len(cls)))
-            c = cls[n - 1]
+        for n, spec in sorted(fs.closures.items(), key=lambda kv: str(kv[0])):
+            if isinstance(n, int):
+                if n < 1 or n > len(cls):
+                    degraded.append("closure %s not found (function has %d closures)" % (n, len(cls)))
+                    continue
+                c = cls[n - 1]
+            else:
+                cname, _, cord = n.partition("#")
+                cord = int(cord or 1)
+                cand = [x for x in cls if x["callee"] == cname]
+                if len(cand) < cord:
+                    degraded.append("closure %s not found (closures in this function: %s)" % (n, [x["callee"] for x in cls]))
+                    continue
+                c = cand[cord - 1]
             names = []
             for i, (a, b) in enumerate(c["params"], 1):
                 ptoks = toks[a:b]
@@ -461,19 +494,19 @@ def instantiate_fn(fs, item, em):
                 if ptoks[0].kind != "ident" or (len(ptoks) > 1 and ptoks[1].text != ":"):
                     if len(ptoks) == 1 and nm == "_":
                         nm = "_p%d" % i
-                        log.append("closure %d param %d: `_` renamed to %s (Verus rejects `_` closure params)" % (n, i, nm))
+                        log.append("closure %s param %d: `_` renamed to %s (Verus rejects `_` closure params)" % (n, i, nm))
                     else:
-                        raise GenError("%s: closure %d has a pattern parameter; unsupported" % (fnkey, n))
+                        raise GenError("%s: closure %s has a pattern parameter; unsupported" % (fnkey, n))
                 if nm == "_":
                     nm = "_p%d" % i
-                    log.append("closure %d param %d: `_` renamed to %s" % (n, i, nm))
+                    log.append("closure %s param %d: `_` renamed to %s" % (n, i, nm))
                 names.append(nm)
             ptxt = spec["params"]
             if ptxt is None:
-                raise GenError("%s: closure %d needs typed params" % (fnkey, n))
+                raise GenError("%s: closure %s needs typed params" % (fnkey, n))
             ptypes = split_top(ptxt)
             if len(ptypes) != len(names):
-                raise GenError("%s: closure %d has %d params in source but sidecar gives %d" % (fnkey, n, len(names), len(ptypes)))
+                raise GenError("%s: closure %s has %d params in source but sidecar gives %d" % (fnkey, n, len(names), len(ptypes)))
             header = "|" + ", ".join("%s: %s" % (nm, ty) for nm, ty in zip(names, ptypes)) + "|"
             ret = spec.get("ret", "-")
             if ret and ret != "-":
@@ -484,7 +517,7 @@ def instantiate_fn(fs, item, em):
                     cs = split_top(subst_params(spec[kind], names))
                     cl.append("%s" % kind)
                     for ci, cexpr in enumerate(cs, 1):
-                        obid = "%s#cl%d%s%d" % (fnkey, n, kind[:3], ci)
+                        obid = "%s#cl[%s]%s%d" % (fnkey, n, kind[:3], ci)
                         cl.append("    %s,  /*@ob %s*/" % (cexpr, obid))
                         em._pending.append({"id": obid, "kind": "closure-" + kind, "fn": fnkey, "tags": list(fs.tags),
                                             "text": cexpr, "marker": obid})
@@ -504,7 +537,8 @@ def instantiate_fn(fs, item, em):
         lps = find_loops(toks, lo, hi)
         for n, spec in sorted(fs.loops.items()):
             if n < 1 or n > len(lps):
-                raise GenError("%s: loop %d not found (function has %d loops)" % (fnkey, n, len(lps)))
+                degraded.append("loop %d not found (function has %d loops)" % (n, len(lps)))
+                continue
             L = lps[n - 1]
             if L["kw"] == "for" and spec.get("iter"):
                 it = spec["iter"]
@@ -525,7 +559,8 @@ def instantiate_fn(fs, item, em):
         for nname, spec in fs.nested.items():
             nk = find_nested_fn(toks, lo + 1, hi, nname)
             if nk is None:
-                raise GenError("%s: nested fn %s not found" % (fnkey, nname))
+                degraded.append("nested fn %s not found" % nname)
+                continue
             sub = parse_fn(text[toks[nk].start:], nname)
             off = toks[nk].start
             if spec.get("ret", "r") != "-" and sub.ret_start is not None:
@@ -580,7 +615,7 @@ def instantiate_fn(fs, item, em):
                             break
                     k += 1
                 if not found:
-                    raise GenError("%s: extend rule: statement %d not found" % (fnkey, n))
+                    degraded.append("extend rule: statement %d not found" % n)
             elif rule in ("iter_any", "iter_all", "iter_position"):
                 meth = rule[5:]
                 cnt = 0
@@ -622,16 +657,17 @@ def instantiate_fn(fs, item, em):
                             break
                     k += 1
                 if not found:
-                    raise GenError("%s: %s rule: occurrence %d not found" % (fnkey, rule, n))
+                    degraded.append("%s rule: occurrence %d not found" % (rule, n))
             elif rule == "subst":
                 # closed, logged textual rewrite:  rule subst :: "<from>" :: "<to>" :: why
                 frm, to = pos[0].strip('"'), pos[1].strip('"')
                 why = pos[2] if len(pos) > 2 else ""
                 idx = text.find(frm)
                 if idx < 0 or text.find(frm, idx + 1) >= 0:
-                    raise GenError("%s: subst rule: %r must occur exactly once" % (fnkey, frm))
-                edits.append((idx, idx + len(frm), to))
-                log.append("R-subst: %r -> %r (%s)" % (frm, to, why))
+                    degraded.append("subst rule: %r does not occur exactly once" % frm)
+                else:
+                    edits.append((idx, idx + len(frm), to))
+                    log.append("R-subst: %r -> %r (%s)" % (frm, to, why))
             else:
                 raise GenError("%s: unknown rule %s" % (fnkey, rule))
         # ---- anchors
@@ -640,7 +676,8 @@ def instantiate_fn(fs, item, em):
             body_lo = toks[lo].start
             idxs = [i for i in idxs if i >= body_lo]
             if len(idxs) <= nth:
-                raise GenError("%s: anchor %r (nth=%d) not found in the current source" % (fnkey, anchor, nth))
+                degraded.append("anchor %r (nth=%d) not found" % (anchor, nth))
+                continue
             if nth == 0 and len(idxs) > 1 and False:
                 raise GenError("%s: anchor %r is ambiguous" % (fnkey, anchor))
             p = idxs[nth] if kind == "before" else idxs[nth] + len(anchor)
@@ -656,10 +693,10 @@ def instantiate_fn(fs, item, em):
     out = apply_edits(text, edits)
     if contract_marker:
         out = out.replace(contract_marker, "\n" + "\n".join(contract_lines) + "\n    ")
-    return out, log
+    return out, log, degraded
 
 def emit_fn(fs, item, em):
-    out, log = instantiate_fn(fs, item, em)
+    out, log, degraded = instantiate_fn(fs, item, em)
     hdr = "    // @src %s:%d-%d sha256=%s key=%s" % (item.file, item.line0, item.line1, item.sha[:16], fs.key)
     em.add(hdr)
     for a in fs.attrs:
@@ -686,7 +723,10 @@ def emit_fn(fs, item, em):
     em.fn_ranges.append((start, end, fs.key, list(fs.tags)))
     em.functions.append({"key": fs.key, "file": item.file, "lines": [item.line0, item.line1], "sha256": item.sha,
                          "tags": list(fs.tags), "gen_lines": [start, end], "rewrites": log,
-                         "name": fs.name, "header": fs.header})
+                         "name": fs.name, "header": fs.header, "degraded": degraded,
+                         "rename_to": fs.rename})
+    for d in degraded:
+        em.degraded.append("%s: %s" % (fs.key, d))
     for l in log:
         em.rewrites.append("%s: %s" % (fs.key, l))
 
